@@ -23,7 +23,8 @@ COMMON_ASSUMPTIONS = [
     'termination of the verified functions is not proved (only the C11 measure/no-stuck/exit lemmas)',
 ]
 
-VALDEPS = ['labtech.tasks:find_tasks_in_param', 'labtech.tasks:get_direct_dependencies']
+VALDEPS = ['labtech.tasks:find_tasks_in_param', 'labtech.tasks:get_direct_dependencies', 'labtech.tasks:_task_result',
+           'labtech.tasks:_task_set_results_map', 'labtech.tasks:_task_set_result_meta']
 SCHED = VALDEPS + [f'{TS}.__init__', f'{TS}.process_tasks', f'{TS}.insert_task', f'{TS}.start_task', f'{TS}.complete_task',
          f'{TS}.get_ready_tasks', f'{TC}.run', f'{TC}.handle_failure', f'{LAB}.run_tasks']
 SERIAL = [f'{SR}.submit_task', f'{SR}.wait', f'{SR}.cancel', f'{SR}.stop', f'{SR}.pending_task_count', f'{SR}.get_result',
@@ -112,7 +113,7 @@ PROPS = {
                 not_covered=['interrupt instants inside TaskState methods and inside Runner/Executor methods other than the statement boundaries listed in the evidence (scope S2) are not decided by the verifier; the native line-injection replay (replay/c14.py) samples them'],
                 design_ref='7/C14'),
     'C16': dict(functions=[f'{PE}._start_processes', f'{PE}.submit', f'{PE}.wait', f'{SP}._submit_task', f'{SR}.wait'],
-                lemmas=[], replay='replay.c16',
+                lemmas=[], replay='replay.c16', standin='replay.c16',
                 assumptions=['TRUSTED: what fork and spawn mean (inherit memory vs fresh interpreter) is the semantics of multiprocessing; the obligation is that processes are created from the backend\'s own context object',
                              'multiprocessing.Process is the DEFAULT context\'s Process class; BaseContext.Process starts with that context\'s start method (assumed contracts)'],
                 not_covered=['the fork child-side function _fork_subprocess_func / _subprocess_func (context filtering in the forked child) is not yet under contract'],
